@@ -115,7 +115,36 @@ def judge_pyfunc(X, r):
     return fails, runs, u
 
 
+def large_vectors():
+    """structured vectors with n >= 16 (sorting-based groupings behave differently from the hand-sized cases)"""
+    out = []
+    for n in (16, 17, 24, 33, 48):
+        for k in (2, 3, 5):
+            out.append(tuple((i * 7 + 3) % k for i in range(n)))
+            out.append(tuple((i // max(1, n // k)) % k for i in range(n))[::-1])
+            out.append(tuple(0 if (i * i + i // 3) % 4 else (i % k) for i in range(n)))
+    return out
+
+
+def _pyfunc_large(_):
+    st = Stats()
+    for X in large_vectors():
+        lab = {v: i for i, v in enumerate(sorted(set(X)))}
+        X = tuple(lab[v] for v in X)
+        for r in RATIOS:
+            fails, runs, u = judge_pyfunc(X, r)
+            st.count('evaluations', runs)
+            st.count('large_vector_cases')
+            if u > 0:
+                st.count('nontrivial')
+            for sig, msg in fails:
+                st.violation({'kind': 'pyfunc', 'X': list(X), 'r': r}, msg, dict(sig, large=True))
+    return st
+
+
 def _pyfunc_job(job):
+    if job == 'large':
+        return _pyfunc_large(None)
     n, lo, hi = job
     st = Stats()
     A = enum.rgs_list(n)
@@ -179,6 +208,10 @@ def forwarding(st):
                 exp = est.score(cy, cx, r, True)
                 if ('f', 'label') not in got or abs(got[('f', 'label')] - exp) > 1e-9:
                     st.violation(case, f'pipeline score {got.get(("f", "label"))!r} with ratio {r} != direct estimator call {exp!r}', {'kind': 'forward_value'})
+                # the label scored against itself goes through the same sampling
+                exp_self = est.score(cx, cx, r, True)
+                if ('label', 'label') in got and abs(got[('label', 'label')] - exp_self) > 1e-9:
+                    st.violation(case, f'pipeline self-pair score {got[("label", "label")]!r} with ratio {r} != direct estimator call {exp_self!r}', {'kind': 'forward_self_pair'})
 
 
 def forwarding_cli(st):
@@ -215,6 +248,7 @@ def run(ctx):
     jobs = []
     for n in range(1, nmax + 1):
         jobs += [(n, lo, hi) for lo, hi in shards(enum.BELL[n], 64 if n >= 7 else 8)]
+    jobs.append('large')
     for st in pmap(_pyfunc_job, jobs):
         ctx.stats.merge(st)
     # (iii)
